@@ -20,9 +20,9 @@ pub(crate) fn completions_for_selected_name<'b>(
 ) -> Vec<CompletionItem<'b>> {
     use crate::named_entity::AnyEntKind::*;
     match ent.kind() {
-        Object(object) => completions_for_type(root, object.subtype.type_mark().kind()),
+        Object(object) => completions_for_type(root, object.subtype.type_mark().kind(), true),
         Design(design) => completions_for_design(root, design),
-        ElementDeclaration(subtyp) => completions_for_type(root, subtyp.type_mark.kind()),
+        ElementDeclaration(subtyp) => completions_for_type(root, subtyp.type_mark.kind(), true),
         Library => ent
             .library_name()
             .map(|sym| list_primaries_for_lib(root, sym))
@@ -32,9 +32,12 @@ pub(crate) fn completions_for_selected_name<'b>(
 }
 
 /// Returns completions applicable when calling `foo.` where `foo` is amn object of some type.
+/// An access value is implicitly dereferenced exactly once, i.e., `may_dereference`
+/// is false when `typ` is the designated type of the access type of `foo`.
 fn completions_for_type<'a>(
     root: &'a DesignRoot,
     typ: &'a named_entity::Type<'a>,
+    may_dereference: bool,
 ) -> Vec<CompletionItem<'a>> {
     use crate::named_entity::Type::*;
     match typ {
@@ -42,9 +45,9 @@ fn completions_for_type<'a>(
             .iter()
             .map(|item| CompletionItem::Simple(item.ent))
             .collect(),
-        Alias(type_ent) => completions_for_type(root, type_ent.kind()),
-        Access(subtype) => {
-            let mut completions = completions_for_type(root, subtype.type_mark().kind());
+        Alias(type_ent) => completions_for_type(root, type_ent.kind(), may_dereference),
+        Access(subtype) if may_dereference => {
+            let mut completions = completions_for_type(root, subtype.type_mark().kind(), false);
             completions.push(CompletionItem::Keyword(All));
             completions
         }
@@ -241,6 +244,55 @@ end foo;
             &options,
             &[CompletionItem::Simple(ent1), CompletionItem::Simple(ent2)],
         )
+    }
+
+    #[test]
+    pub fn completing_access_types_dereferences_only_once() {
+        // (type of the prefix, whether the element of rec_t is expected)
+        let cases = [
+            ("rec_ptr_t", true),
+            ("rec_ptr_ptr_t", false),
+            // An access type that designates itself
+            ("self_t", false),
+        ];
+
+        for (typ, expect_elem) in cases {
+            let mut builder = LibraryBuilder::new();
+            let code = builder.code(
+                "libA",
+                &format!(
+                    "\
+package foo is
+    type rec_t is record
+        elem_a: bit;
+    end record;
+    type rec_ptr_t is access rec_t;
+    type rec_ptr_ptr_t is access rec_ptr_t;
+
+    type self_t;
+    type self_t is access self_t;
+
+    shared variable y: {typ};
+    constant z: bit := y.
+end foo;
+        "
+                ),
+            );
+
+            let (root, _) = builder.get_analyzed_root();
+            let cursor = code.s1("y.").end();
+            let options = list_completion_options(&root, code.source(), cursor);
+
+            let mut expected = vec![CompletionItem::Keyword(All)];
+            if expect_elem {
+                let elem = root
+                    .search_reference(code.source(), code.s1("elem_a").start())
+                    .unwrap();
+                expected.push(CompletionItem::Simple(elem));
+            }
+
+            assert_eq_unordered(&options, &expected);
+        }
     }
 
     // It is currently unclear, whether the lack of this feature is a parser or analyzer limitation
